@@ -1,6 +1,7 @@
 import FFVerif.Props.C05
 import FFVerif.Props.C05d
 import FFVerif.Props.C05e
+import FFVerif.Props.C06Def
 import FFVerif.Pins.pinExtend
 import FFVerif.Pins.pinRemap
 import FFVerif.Pins.pinMergeAttrs
@@ -41,6 +42,22 @@ import FFVerif.Pins.pinMapIdentifiers
 #print axioms FFVerif.C05.trace_basis_sqrt
 #print axioms FFVerif.C05.trace_kronFin_conj
 #print axioms FFVerif.C05.trace_kron_basis
+#print axioms FFVerif.C06Def.extendDef_sorted
+#print axioms FFVerif.C06Def.extendDef_keeps_association
+#print axioms FFVerif.C06Def.extendDef_term_mem
+#print axioms FFVerif.C06Def.extendDef_operator_placement
+#print axioms FFVerif.C06Def.extendDef_single_placement
+#print axioms FFVerif.C06Def.extendDef_default_identifier
+#print axioms FFVerif.C06Def.extendDef_given_identifier
+#print axioms FFVerif.C06Def.extendDef_times
+#print axioms FFVerif.C06Def.extendDef_additional_by_identifier
+#print axioms FFVerif.C06Def.extendDef_additional_order_irrelevant
+#print axioms FFVerif.C06Def.extendDef_errors_iff
+#print axioms FFVerif.C06Def.nDtOf_eq
+#print axioms FFVerif.C06Def.extendDef_shortcut
+#print axioms FFVerif.C06Def.extend_duplicates_rejected
+#print axioms FFVerif.C06Def.extendDef_ids_unique
+#print axioms FFVerif.C06Def.mapIdentifiers_spec
 #print axioms FFVerif.C05d.ff_grid_sound
 #print axioms FFVerif.C05d.ff_grid_iff
 #print axioms FFVerif.C05d.cached_iff_grid
